@@ -220,8 +220,20 @@ def check_modified(i, key, cid, prev, cur):
     path, allowed, value = mp["path"], mp["allowed"], mp["value"]
     diffs = rp.diff(prev.parsed_all[k0], cur.parsed[key])
     for p, a, b in diffs:
-        if not any(p == q or p.startswith(q + "/") or p.startswith(q + "[") for q in allowed):
+        if not any(p == q or p.startswith(q + "/") or p.startswith(q + "[") or (q.endswith("(") and p.startswith(q)) for q in allowed):
             raise Violation("modify_only_named", "simulation %d: %s_MODIFY %d -%s changed %s: %r -> %r" % (i, k0[0], k0[1], cid[2], p, a, b))
+    tot = cur.parsed[key].get("totals") if isinstance(cur.parsed[key].get("totals"), dict) else {}
+    for name in mp.get("absent", []):
+        stale = [e for e in tot if (e.startswith(name) if name.endswith("(") else e == name)]
+        if stale:
+            raise Violation("modify_value", "simulation %d: %s_MODIFY %d -totals %s: entries %r are still listed beside the new total" % (
+                i, k0[0], k0[1], " ".join(l.strip() for l in mp["lines"][1:]), stale))
+    for p2, v2 in mp.get("more", []):
+        node = cur.parsed[key]
+        for part in p2.strip("/").split("/"):
+            node = node.get(part) if isinstance(node, dict) else None
+        if not (isinstance(node, float) and close(node, float(v2), 1e-12)):
+            raise Violation("modify_value", "simulation %d: %s %d %s is %r after *_MODIFY set it to %r" % (i, key[0], key[1], p2, node, v2))
     node = cur.parsed[key]
     for part in path.strip("/").split("/"):
         if not isinstance(node, dict) or part not in node:
